@@ -231,6 +231,27 @@ func ruleENUMOMIT(c *Ctx) []Obligation {
 					}
 					negate = true
 				}
+				// default-then-override shape:  s := "kw"; if F != X { s = fmt.Sprintf("kw(%s)", F) }; return s
+				// — the members the guard excludes are spelled by the constant default, not dropped
+				defaulted := false
+				if prints && is.Else == nil && len(is.Body.List) == 1 {
+					if as, ok := is.Body.List[0].(*ast.AssignStmt); ok && as.Tok == token.ASSIGN && len(as.Lhs) == 1 {
+						if vid, ok := as.Lhs[0].(*ast.Ident); ok {
+							for _, st := range fd.Body.List {
+								if st.Pos() >= is.Pos() {
+									break
+								}
+								if ds, ok := st.(*ast.AssignStmt); ok && ds.Tok == token.DEFINE && len(ds.Lhs) == 1 && len(ds.Rhs) == 1 {
+									if did, ok := ds.Lhs[0].(*ast.Ident); ok && info.ObjectOf(did) == info.ObjectOf(vid) {
+										if tv := info.Types[ds.Rhs[0]]; tv.Value != nil && tv.Value.Kind() == constant.String && constant.StringVal(tv.Value) != "" {
+											defaulted = true
+										}
+									}
+								}
+							}
+						}
+					}
+				}
 				et := enumByType[typeKey(info.TypeOf(field))]
 				n++
 				o := Obligation{Key: fmt.Sprintf("%s prints %s unless zero #%d", funcKey(fn), exprString(field), n), Pos: c.pos(is.Pos()), Verdict: OK, Tags: []string{"enum"}}
@@ -254,7 +275,12 @@ func ruleENUMOMIT(c *Ctx) []Obligation {
 						undecided = true
 						break
 					}
-					if negate {
+					if defaulted {
+						// the members the guard excludes share the default's spelling
+						if !constant.BoolVal(r) {
+							dropped = append(dropped, d.Name)
+						}
+					} else if negate {
 						// early-return shape: the members for which the guard holds share the
 						// guard's spelling — more than one of them is a collision
 						if constant.BoolVal(r) {
@@ -267,9 +293,9 @@ func ruleENUMOMIT(c *Ctx) []Obligation {
 				switch {
 				case undecided:
 					o.Verdict, o.Detail = UNDECIDED, "the guard could not be evaluated over the members of "+et.Short
-				case negate && len(dropped) <= 1:
+				case (negate || defaulted) && len(dropped) <= 1:
 					o.Detail = fmt.Sprintf("`%s` selects the short spelling for one member (%s); every other member is spelled with its keyword", exprString(is.Cond), strings.Join(dropped, ""))
-				case negate:
+				case negate || defaulted:
 					o.Verdict = VIOL
 					o.Detail = fmt.Sprintf("the guard `%s` gives %s one and the same spelling: two values of %s are written as the same text, and the reader can return only one of them", exprString(is.Cond), strings.Join(dropped, ", "), et.Short)
 				case len(dropped) > 0:
